@@ -313,3 +313,8 @@ tr!(c04_bc_shared_all, hk_c04_bc_shared_all, BcT, 2, 1, [1, 1, 1], TrCfg { pre_s
 tr!(c05_mp_shared_all, hk_c05_mp_shared_all, MpT, 2, 1, [1, 1, 1], TrCfg { pre_send: 2, pre_recv: 1, teardown: true, ..QUICK });
 
 
+
+// ---- C18: a try operation runs alone while another thread is frozen in the middle of an operation
+tr!(c18_mp_frozen_recv, hk_c18_mp_frozen_recv, MpB, 1, 2, [1, 1, 1], TrCfg { budget: 1, ..QUICK });
+tr!(c18_bc_frozen_send, hk_c18_bc_frozen_send, BcB, 2, 0, [1, 1, 1], TrCfg { budget: 1, pre_send: 1, pre_recv: 1, ..QUICK });
+tr!(c18_mp_frozen_send_mw, hk_c18_mp_frozen_send_mw, MpB, 1, 0, [1, 1, 1], TrCfg { cap: 1, n: 1, budget: 1, pre_send: 1, pre_recv: 1, ..QUICK });
